@@ -457,6 +457,9 @@ class Obligation:
                     extra2 = margins(ex, gap=2 * 10**9)     # a violation may need an instant closer than a minute to "now"
                 except TypeError:
                     extra2 = []
+            if os.environ.get('VERIF_DEBUG') == 'margins' and extra and ex.solver.check(zbool(neg), *(small + extra)) != z3.sat:
+                bad = [str(c)[:200] for c in extra if ex.solver.check(zbool(neg), c) != z3.sat]
+                print('MARGINS-UNSAT %s: %d/%d individually unsat: %s' % (label, len(bad), len(extra), bad[:4]))
             if extra and ex.solver.check(zbool(neg), *(small + extra)) == z3.sat:
                 m = ex.solver.model()
             elif extra2 and ex.solver.check(zbool(neg), *(small + extra2)) == z3.sat:
